@@ -286,7 +286,7 @@ def _immut(spec, ctx, R):
     if structure:
         ctx.hit("structure:" + structure)
     base = battery.run_all(R, layout=None, size=size, structure=structure)
-    got = battery.run_all(R, layout=lay, size=size, repeat=True, structure=structure)
+    got = battery.run_all(R, layout=lay, size=size, repeat=True, structure=structure, alias=(lay == "C"))
     st = (f"size={size}" if size is not None else "size=default") + (f",{structure}" if structure else "")
     for name, rec in got.items():
         b = base[name]
@@ -304,6 +304,13 @@ def _immut(spec, ctx, R):
             if "inplace_same_object" in rec and lay == "C":      # same (contiguous) memory order on both sides: bitwise comparable
                 ctx.check("repeat:after_inplace_update_equals_fresh", rec["inplace_same_object"] == rec["inplace_fresh_copy"], site=name,
                           tags=[lay, st], detail={"layout": lay, "size": size})
+        for pr, a in (rec.get("alias") or {}).items():
+            if "error" in a:
+                ctx.check("alias:same_object_equals_copy", False, site=name, tags=[st, "exception_only_when_aliased"], detail={"pair": pr, "error": a["error"]})
+                continue
+            ctx.hit("alias:pairs_evaluated")
+            ctx.check("alias:same_object_equals_copy", a["same_object"] == a["copy"], site=name, tags=[st], detail={"argument_pair": pr})
+            ctx.check("alias:view_equals_copy", a["view"] == a["copy"], site=name, tags=[st], detail={"argument_pair": pr})
     if lay == "C" and size is None:
         ctx.sample({"battery_entries": sorted(got)[:12] + ["..."], "n_entries": len(got), "layouts": gen.LAYOUTS, "size_variants": [None, 1, 2, 3, 5]})
 
